@@ -11,6 +11,10 @@ from mirsym.sym import derives_from
 CR = 'crates/anemo/src/crypto.rs'
 
 
+def base(n):
+    return n.replace('.deref', '').replace('.*', '')
+
+
 def viol(prop, ob, exs, detail, key, sample, n):
     o = ob.done(exs, 'violated', detail, sample, key=key, paths=n)
     o.replay = write_replay(prop, o.name, {'detail': detail, 'sample': sample})
@@ -181,3 +185,406 @@ def ob_expected_id_flow(report, prop):
         ob.done([ex, ex2], 'held', '', {'paths': len(res) + len(res2)}, paths=len(res) + len(res2))
     return guarded(report, 'expected_identity_reaches_verifier', 'Endpoint::connect_with_expected_peer_id dials with a client config built for exactly the requested identity; that config installs '
                    'ExpectedCertVerifier(_, that identity)', ['Endpoint::connect_with_expected_peer_id', 'EndpointConfig::client_config_with_expected_server_identity'], {}, body)
+
+
+# ----------------------------------------------------------------------------- CertVerifier: name checks and self-signed validation (C01 / C14)
+def _run_cert_verifier(which):
+    """paths of CertVerifier::verify_{server,client}_cert with webpki/rustls calls as symbolic results"""
+    def m_prepare(ex, p, call, k):
+        p.events.append(Event('prepare', 'prepare_for_self_signed', (ex.deref(p, call.args[0]), ex.deref(p, call.args[1]))))
+        k(p, Sym('prepared', 'Result<CertChainAndRoots, rustls::Error>'))
+
+    def m_verify_usage(ex, p, call, k):
+        p.events.append(Event('verify-usage', 'verify_for_usage', tuple(ex.deref(p, a) if isinstance(a, Ptr) else a for a in call.args)))
+        k(p, Sym('usage_result', 'Result<VerifiedPath, webpki::Error>'))
+
+    def m_valid_for_name(ex, p, call, k):
+        n = p.seq('namecheck')
+        name = ex.deref(p, call.args[1])
+        p.events.append(Event('name-check', 'verify_is_valid_for_subject_name', (ex.deref(p, call.args[0]), name), Sym(f'name_valid{n}', 'Result<(), webpki::Error>')))
+        k(p, Sym(f'name_valid{n}', 'Result<(), webpki::Error>'))
+
+    def m_end_entity(ex, p, call, k):
+        k(p, Ptr(('H', f'end_entity_of({vname(ex.deref(p, call.args[0]))})', 'EndEntityCert')))
+
+    def m_iter_find(ex, p, call, k):
+        # self.server_names.iter().find(|name| name == dns_name): symbolic membership of the dialed name
+        p.events.append(Event('name-member', 'Iterator::find', (call.args[0], call.args[1])))
+        k(p, Sym('name_in_accepted', 'Option<&String>'))
+    models = [(r'(^|::)prepare_for_self_signed$', m_prepare), (r'EndEntityCert::verify_for_usage$', m_verify_usage),
+              (r'verify_is_valid_for_subject_name$', m_valid_for_name), (r'VerifiedPath::end_entity$', m_end_entity), (r'as Iterator>::find$', m_iter_find)]
+    ex = e2.executor('anemo', models, max_depth=2, unroll=2)
+    fns = [f for f in find_fns(ex.prog, rf'^crypto::<impl>::verify_{which}_cert$') if re.search(r'&(crypto::)?CertVerifier$', f.decl.get(f.args[0], ''))]
+    if len(fns) != 1:
+        raise NotFound(f'CertVerifier::verify_{which}_cert: {len(fns)}')
+    return ex, fns[0]
+
+
+def ob_server_cert_verifier(report, prop):
+    def body(ob):
+        ex, fn = _run_cert_verifier('server')
+        p = Path()
+        names = ('end_entity', 'intermediates', 'server_name', 'ocsp')
+        for n in names:
+            p.mem[('H', n, '')] = Sym(n, '')
+        res = ex.run(fn, [Ptr(('H', 'self', 'CertVerifier'))] + [Ptr(('H', n, '')) for n in names] + [Sym('now', 'UnixTime')], p)
+        ok_paths = 0
+        for r in res:
+            if r.tag != 'return':
+                if r.tag == 'loop-bound':
+                    continue
+                return viol(prop, ob, [ex], f'verify_server_cert can {r.tag}', 'srv-abnormal', path_summary(r), len(res))
+            ret = r.ret
+            pcs = ' '.join(str(z3.simplify(c)).replace('\n', ' ') for c in r.pc)
+            is_ok = (isinstance(ret, Agg) and ret.variant == 'Ok') or (isinstance(ret, Sym) and ret.name.startswith('name_valid') and False)
+            # the function returns `name_check.map_err(..).map(..)`: an Ok result requires the name check's Ok
+            if isinstance(ret, Sym) or (isinstance(ret, Agg) and ret.variant == 'Ok'):
+                pass
+            if not (isinstance(ret, Agg) and ret.variant == 'Ok'):
+                continue
+            ok_paths += 1
+            pre = [e for e in r.events if e.kind == 'prepare']
+            vu = [e for e in r.events if e.kind == 'verify-usage']
+            nc = [e for e in r.events if e.kind == 'name-check']
+            nm = [e for e in r.events if e.kind == 'name-member']
+            if len(pre) != 1 or vname(pre[0].args[0]) != 'end_entity' or 'prepared.discr == 0' not in pcs:
+                return viol(prop, ob, [ex], 'server certificate accepted without preparing the self-signed chain from the presented end-entity certificate', 'srv-prepare', path_summary(r), len(res))
+            if len(vu) != 1 or 'usage_result.discr == 0' not in pcs:
+                return viol(prop, ob, [ex], 'server certificate accepted without a successful webpki verify_for_usage', 'srv-usage', path_summary(r), len(res))
+            a = vu[0].args
+            if 'SUPPORTED_SIG_ALGS' not in vrepr(a[1]) or not any('server_auth' in vrepr(x) for x in a) or vname(a[4]) != 'now':
+                return viol(prop, ob, [ex], f'verify_for_usage is not run with (SUPPORTED_SIG_ALGS, the self-signed anchor, now, server_auth): {[vrepr(x)[:40] for x in a]}', 'srv-usage-args', path_summary(r), len(res))
+            if 'prepared@Ok.0' not in vname(a[0]) or 'prepared@Ok.0' not in vname(a[2]):
+                return viol(prop, ob, [ex], 'verify_for_usage does not use the end-entity certificate as its own trust anchor', 'srv-anchor', path_summary(r), len(res))
+            if not nm or 'name_in_accepted.discr == 1' not in pcs:
+                return viol(prop, ob, [ex], 'server certificate accepted without the dialed name being one of this endpoint\'s accepted network names', 'srv-name-membership', path_summary(r), len(res))
+            if not re.search(r'server_name\.discr == \d+', pcs):
+                return viol(prop, ob, [ex], 'the kind of the dialed ServerName (DNS name) is not checked', 'srv-name-kind', path_summary(r), len(res))
+            if len(nc) != 1 or vname(nc[0].args[1]) != 'server_name' or not re.search(r'name_valid1\.discr == 0', pcs) or 'usage_result@Ok.0' not in vname(nc[0].args[0]):
+                return viol(prop, ob, [ex], 'server certificate accepted without the verified certificate being valid for the dialed network name', 'srv-name-validity', path_summary(r), len(res))
+        if not ok_paths:
+            return ob.done([ex], 'inconclusive', 'vacuity: no accepting path', paths=len(res))
+        ob.done([ex], 'held', '', {'paths': len(res), 'accepting_paths': ok_paths}, paths=len(res))
+    return guarded(report, 'server_cert_requires_name_and_self_signature', 'CertVerifier::verify_server_cert returns Ok only if: the chain was prepared from the presented certificate (its own trust anchor), '
+                   'webpki verify_for_usage(Ed25519 only, now, server_auth) succeeded, the dialed name is a DNS name equal to an accepted network name, and the verified certificate is valid for '
+                   'that name', ['CertVerifier::verify_server_cert', 'prepare_for_self_signed'], {'webpki/rustls': 'results symbolic', 'loop_unroll': 2}, body)
+
+
+def ob_client_cert_verifier(report, prop):
+    def body(ob):
+        ex, fn = _run_cert_verifier('client')
+
+        def m_collect(ex_, p, call, k):
+            k(p, Sym('parsed_names', 'Result<Vec<ServerName>, InvalidDnsNameError>'))
+
+        def m_any(ex_, p, call, k):
+            # run the predicate once on a symbolic accepted name
+            outs = []
+            q = p.clone()
+            saved = ex_.results
+            ex_.results = []
+            ex_.call_closure(q, call.args[1], [Sym('accepted_name', 'ServerName')], call, lambda q2, ret: outs.append((q2, ret)))
+            ex_.results = saved
+            evs = []
+            for q2, ret in outs:
+                evs += [e for e in q2.events[len(p.events):] if e.kind == 'name-check']
+            p.events.append(Event('any-name', 'Iterator::any', (tuple(evs), tuple(ret for _, ret in outs))))
+            k(p, z3.Bool('some_name_valid'))
+        ex.models = [(re.compile(r'as Iterator>::collect$'), m_collect), (re.compile(r'as Iterator>::any$'), m_any)] + ex.models
+        p = Path()
+        for n in ('end_entity', 'intermediates'):
+            p.mem[('H', n, '')] = Sym(n, '')
+        res = ex.run(fn, [Ptr(('H', 'self', 'CertVerifier')), Ptr(('H', 'end_entity', '')), Ptr(('H', 'intermediates', '')), Sym('now', 'UnixTime')], p)
+        ok_paths = 0
+        for r in res:
+            if r.tag != 'return':
+                if r.tag == 'loop-bound':
+                    continue
+                return viol(prop, ob, [ex], f'verify_client_cert can {r.tag}', 'cli-abnormal', path_summary(r), len(res))
+            ret = r.ret
+            if not (isinstance(ret, Agg) and ret.variant == 'Ok'):
+                continue
+            ok_paths += 1
+            pcs = ' '.join(str(z3.simplify(c)).replace('\n', ' ') for c in r.pc)
+            pre = [e for e in r.events if e.kind == 'prepare']
+            vu = [e for e in r.events if e.kind == 'verify-usage']
+            an = [e for e in r.events if e.kind == 'any-name']
+            if len(pre) != 1 or vname(pre[0].args[0]) != 'end_entity' or 'prepared.discr == 0' not in pcs:
+                return viol(prop, ob, [ex], 'client certificate accepted without preparing the self-signed chain from the presented certificate', 'cli-prepare', path_summary(r), len(res))
+            if len(vu) != 1 or 'usage_result.discr == 0' not in pcs or not any('client_auth' in vrepr(x) for x in vu[0].args) or 'SUPPORTED_SIG_ALGS' not in vrepr(vu[0].args[1]):
+                return viol(prop, ob, [ex], 'client certificate accepted without a successful webpki verify_for_usage(Ed25519 only, client_auth)', 'cli-usage', path_summary(r), len(res))
+            if len(an) != 1 or 'some_name_valid' not in pcs or 'Not(some_name_valid)' in pcs:
+                return viol(prop, ob, [ex], 'client certificate accepted without any accepted network name being checked against it', 'cli-name-required', path_summary(r), len(res))
+            checks, rets = an[0].args
+            if len(checks) != 1 or vname(checks[0].args[1]) != 'accepted_name' or 'usage_result@Ok.0' not in vname(checks[0].args[0]):
+                return viol(prop, ob, [ex], 'the per-name predicate does not test the verified client certificate against that accepted name', 'cli-name-predicate', path_summary(r), len(res))
+            # predicate result must be exactly "the name check succeeded"
+            nv = z3.BitVec(vname(checks[0].ret) + '.discr', 64)
+            for rv in rets:
+                if not isinstance(rv, z3.ExprRef) or e2.solve([rv != (nv == 0)], want_model=False)[0] != 'unsat':
+                    return viol(prop, ob, [ex], f'the per-name predicate is true although the certificate is not valid for that name (predicate = {vrepr(rv)[:80]})', 'cli-name-predicate-result', path_summary(r), len(res))
+        if not ok_paths:
+            return ob.done([ex], 'inconclusive', 'vacuity: no accepting path', paths=len(res))
+        ob.done([ex], 'held', '', {'paths': len(res), 'accepting_paths': ok_paths}, paths=len(res))
+    return guarded(report, 'client_cert_requires_accepted_name', 'CertVerifier::verify_client_cert returns Ok only if webpki verify_for_usage(Ed25519 only, client_auth) on the self-anchored certificate '
+                   'succeeded and the verified certificate is valid for at least one accepted network name (predicate true iff verify_is_valid_for_subject_name is Ok)',
+                   ['CertVerifier::verify_client_cert'], {'webpki': 'results symbolic'}, body)
+
+
+def ob_client_auth_mandatory(report, prop):
+    def body(ob):
+        ex = e2.executor('anemo', [], max_depth=1)
+        n = 0
+        for meth in ('client_auth_mandatory', 'offer_client_auth'):
+            fns = find_fns(ex.prog, rf'^crypto::<impl>::{meth}$')
+            if len(fns) != 1:
+                return ob.done([ex], 'inconclusive', f'{meth}: {len(fns)} bodies', paths=n)
+            res = ex.run(fns[0], [])
+            n += len(res)
+            for r in res:
+                if r.tag != 'return' or not (isinstance(r.ret, z3.ExprRef) and z3.is_true(z3.simplify(r.ret))):
+                    return viol(prop, ob, [ex], f'{meth}() does not return constant true: unauthenticated clients would be admitted without an identity', f'mtls-{meth}', path_summary(r), n)
+        ob.done([ex], 'held', '', {'paths': n}, paths=n)
+    return guarded(report, 'client_auth_mandatory', 'the server-side verifier offers and requires client authentication (both constant true)',
+                   ['CertVerifier::client_auth_mandatory', 'CertVerifier::offer_client_auth'], {}, body)
+
+
+def ob_peer_id_extraction(report, prop):
+    def body(ob):
+        def m_from_der(ex, p, call, k):
+            p.events.append(Event('x509', 'X509Certificate::from_der', (ex.deref(p, call.args[0]),)))
+            k(p, Sym('parsed', 'Result<(&[u8], X509Certificate), Err>'))
+
+        def m_public_key(ex, p, call, k):
+            p.events.append(Event('spki', 'public_key', (ex.deref(p, call.args[0]),)))
+            k(p, Ptr(('H', 'spki', 'SubjectPublicKeyInfo')))
+
+        def m_from_spki(ex, p, call, k):
+            p.events.append(Event('ed25519', 'from_public_key_der', (ex.deref(p, call.args[0]),)))
+            k(p, Sym('keybytes', 'Result<PublicKeyBytes, Error>'))
+
+        def m_to_bytes(ex, p, call, k):
+            k(p, Agg('[]', None, [z3.BitVec(f'key{i}', 8) for i in range(32)], 'array') if False else Sym('key_bytes_array', '[u8; 32]').with_ov('from', ('to_bytes', (call.args[0],))))
+        ex = e2.executor('anemo', [(r'X509Certificate.*::from_der$|FromDer>::from_der$', m_from_der), (r'::public_key$', m_public_key),
+                                   (r'DecodePublicKey>::from_public_key_der$', m_from_spki), (r'PublicKeyBytes::to_bytes$', m_to_bytes),
+                                   (r'CertificateDer as AsRef>::as_ref$|as Deref>::deref$', lambda ex_, p_, call, k: k(p_, call.args[0]))], max_depth=2)
+        fn = find_fn(ex.prog, r'^peer_id_from_certificate$')
+        p = Path()
+        p.mem[('H', 'cert', 'CertificateDer')] = Sym('cert', 'CertificateDer')
+        res = ex.run(fn, [Ptr(('H', 'cert', 'CertificateDer'))], p)
+        ok = 0
+        for r in res:
+            if r.tag != 'return':
+                return viol(prop, ob, [ex], f'peer_id_from_certificate can {r.tag} on a malformed certificate', 'pid-abnormal', path_summary(r), len(res))
+            if not (isinstance(r.ret, Agg) and r.ret.variant == 'Ok'):
+                continue
+            ok += 1
+            pcs = ' '.join(str(z3.simplify(c)) for c in r.pc)
+            x = [e for e in r.events if e.kind == 'x509']
+            s = [e for e in r.events if e.kind == 'spki']
+            d = [e for e in r.events if e.kind == 'ed25519']
+            if len(x) != 1 or vname(x[0].args[0]) != 'cert' or 'parsed.discr == 0' not in pcs:
+                return viol(prop, ob, [ex], 'an identity is derived without successfully parsing the given certificate', 'pid-parse', path_summary(r), len(res))
+            if len(s) != 1 or 'parsed@Ok.0' not in vname(s[0].args[0]):
+                return viol(prop, ob, [ex], 'the identity is not taken from the parsed certificate\'s subject public key', 'pid-spki', path_summary(r), len(res))
+            if len(d) != 1 or 'keybytes.discr == 0' not in pcs or 'spki' not in vname(d[0].args[0]):
+                return viol(prop, ob, [ex], 'the identity is not the Ed25519 key decoded from the subject-public-key field', 'pid-ed25519', path_summary(r), len(res))
+            pid = r.ret.fields[0]
+            if not derives_from(pid, lambda v: isinstance(v, Sym) and v.name == 'key_bytes_array') and not (isinstance(pid, Agg) and derives_from(pid, lambda v: isinstance(v, Sym) and v.name.startswith('keybytes'))):
+                return viol(prop, ob, [ex], f'the PeerId returned ({vrepr(pid)[:60]}) is not the bytes of that key', 'pid-bytes', path_summary(r), len(res))
+        if not ok:
+            return ob.done([ex], 'inconclusive', 'no Ok path', paths=len(res))
+        ob.done([ex], 'held', '', {'paths': len(res)}, paths=len(res))
+    return guarded(report, 'identity_is_certificate_public_key', 'peer_id_from_certificate: Ok(PeerId) only = bytes of the Ed25519 key decoded from the subject-public-key-info of the successfully parsed '
+                   'certificate; any parser error is an Err', ['peer_id_from_certificate'], {'x509-parser / ed25519 pkcs8': 'results symbolic'}, body)
+
+
+def ob_connection_identity(report, prop):
+    def body(ob):
+        def m_pid(ex, p, call, k):
+            p.events.append(Event('extract-id', 'peer_id_from_certificate', (ex.deref(p, call.args[0]),)))
+            k(p, Sym('extracted', 'Result<PeerId, rustls::Error>'))
+
+        def m_peer_identity(ex, p, call, k):
+            k(p, Sym('peer_identity', 'Option<Box<dyn Any>>'))
+
+        def m_downcast(ex, p, call, k):
+            k(p, Sym('chain_box', 'Result<Box<Vec<CertificateDer>>, Box<dyn Any>>'))
+
+        def m_vec_index(ex, p, call, k):
+            v = ex.deref(p, call.args[0])
+            idx = call.args[1]
+            p.events.append(Event('chain-index', 'Vec::index', (v, idx)))
+            i = MD.conc(idx)
+            k(p, Ptr(('H', f'{vname(v)}[{i if i is not None else "?"}]', 'CertificateDer')))
+
+        def m_pop(ex, p, call, k):
+            v = ex.deref(p, call.args[0])
+            p.events.append(Event('chain-index', 'Vec::pop', (v, Str('last'))))
+            k(p, Sym(f'{vname(v)}[last]', 'Option<CertificateDer>'))
+        ex = e2.executor('anemo', [(r'(^|::)peer_id_from_certificate$', m_pid), (r'quinn::Connection::peer_identity$', m_peer_identity), (r'::downcast$', m_downcast),
+                                   (r'<Vec as Index>::index$', m_vec_index), (r'Vec::(pop|last|remove|swap_remove)$', m_pop),
+                                   (r'Box as Deref>::deref$', lambda ex_, p_, call, k: k(p_, Ptr(('H', vname(ex_.deref(p_, call.args[0])) + '.boxed', ''))))], max_depth=2)
+        fn = find_method(ex.prog, 'Connection', 'new', file_re=r'anemo/src/connection\.rs')
+        cf = struct_fields('crates/anemo/src/connection.rs', 'Connection')
+        res = ex.run(fn, [Sym('quinn_conn', 'quinn::Connection'), Sym('origin', 'ConnectionOrigin')])
+        ok = 0
+        for r in res:
+            if r.tag != 'return' or not (isinstance(r.ret, Agg) and r.ret.variant == 'Ok'):
+                continue
+            ok += 1
+            c = r.ret.fields[0]
+            ext = [e for e in r.events if e.kind == 'extract-id']
+            idx = [e for e in r.events if e.kind == 'chain-index']
+            if len(ext) != 1 or 'extracted.discr == 0' not in ' '.join(str(z3.simplify(x)) for x in r.pc):
+                return viol(prop, ob, [ex], 'a Connection is created without successfully extracting the peer identity from its certificate', 'conn-extract', path_summary(r), len(res))
+            if len(idx) != 1 or idx[0].name != 'Vec::index' or MD.conc(idx[0].args[1]) != 0:
+                return viol(prop, ob, [ex], f'the identity is not taken from element 0 of the peer\'s certificate chain - the end-entity certificate the handshake signature was verified against '
+                            f'({idx[0].name if idx else "no index"} {vrepr(idx[0].args[1]) if idx else ""})', 'conn-chain-element', path_summary(r), len(res))
+            if '[0]' not in vname(ext[0].args[0]):
+                return viol(prop, ob, [ex], f'identity extracted from {vrepr(ext[0].args[0])[:60]}, not from the end-entity certificate', 'conn-extract-arg', path_summary(r), len(res))
+            if not (isinstance(c, Agg) and vname(c.fields[cf.index('peer_id')]) == 'extracted@Ok.0' and vname(c.fields[cf.index('inner')]) == 'quinn_conn' and vname(c.fields[cf.index('origin')]) == 'origin'):
+                return viol(prop, ob, [ex], f'Connection fields are not (inner = the quinn connection, peer_id = the extracted identity, origin = as given): {vrepr(c)[:140]}', 'conn-fields', path_summary(r), len(res))
+        if not ok:
+            return ob.done([ex], 'inconclusive', 'no Ok path', paths=len(res))
+        ob.done([ex], 'held', '', {'paths': len(res)}, paths=len(res))
+    return guarded(report, 'connection_identity_from_end_entity', 'Connection::new: peer_id = peer_id_from_certificate(chain[0]) of the TLS peer identity of that very quinn connection, stored once',
+                   ['Connection::new', 'Connection::try_peer_id'], {}, body)
+
+
+def ob_server_config_sni(report, prop):
+    def body(ob):
+        def m_next(ex, p, call, k):
+            n = p.seq('pair')
+            if n > 2:
+                return k(p, MD.NONE)
+            q = p.clone()
+            pair = Agg('()', None, (Sym(f'name{n}', 'String'), Sym(f'cert{n}', 'CertificateDer')), 'tuple')
+            p.events.append(Event('pair', 'next', (pair,)))
+            k(p, MD.some(pair))
+            k(q, MD.NONE)
+
+        def m_certified(ex, p, call, k):
+            v = ex.deref(p, call.args[0]) if isinstance(call.args[0], Ptr) else call.args[0]
+            k(p, Sym(f'certified({vname(v)})', 'CertifiedKey').with_ov('from', ('CertifiedKey::new', (v,))))
+
+        def m_add(ex, p, call, k):
+            p.events.append(Event('sni-add', 'ResolvesServerCertUsingSni::add', (ex.deref(p, call.args[1]), call.args[2])))
+            k(p, Sym(f'add_result{p.seq("add")}', 'Result<(), rustls::Error>'))
+        ex = e2.executor('anemo', [(r'IntoIter as Iterator>::next$', m_next), (r'CertifiedKey::new$', m_certified), (r'ResolvesServerCertUsingSni::add$', m_add)], max_depth=1, unroll=4)
+        fns = [f for f in find_fns(ex.prog, r'^config::<impl>::server_config$') if len(f.args) >= 3]
+        if len(fns) != 1:
+            return ob.done([ex], 'inconclusive', 'EndpointConfigBuilder::server_config not found', paths=0)
+        res = ex.run(fns[0], [])
+        n_ok = 0
+        for r in res:
+            if r.tag != 'return' or not (isinstance(r.ret, Agg) and r.ret.variant == 'Ok'):
+                continue
+            names = [e.name for e in r.events if e.kind == 'call']
+            pairs = [e.args[0] for e in r.events if e.kind == 'pair']
+            adds = [e for e in r.events if e.kind == 'sni-add']
+            if any(n.endswith('with_single_cert') for n in names) or not any(n.endswith('with_cert_resolver') for n in names):
+                return viol(prop, ob, [ex], 'the listener\'s certificate is not chosen by the SNI name the dialer claims (no ResolvesServerCertUsingSni): a dialer claiming a foreign network name would be answered',
+                            'sni-resolver-missing', path_summary(r), len(res))
+            if not any(n.endswith('with_client_cert_verifier') for n in names):
+                return viol(prop, ob, [ex], 'the server config is built without the client certificate verifier', 'sni-client-verifier', path_summary(r), len(res))
+            if len(adds) != len(pairs):
+                return viol(prop, ob, [ex], f'{len(pairs)} accepted names but {len(adds)} SNI registrations', 'sni-count', path_summary(r), len(res))
+            for pr, ad in zip(pairs, adds):
+                if base(vname(ad.args[0])) != vname(pr.fields[0]) or not derives_from(ad.args[1], lambda v: isinstance(v, Sym) and v.name == vname(pr.fields[1]), ex=ex, p=r.path):
+                    return viol(prop, ob, [ex], f'SNI name {vrepr(ad.args[0])} is not registered with the certificate generated for that name', 'sni-pairing', path_summary(r), len(res))
+            n_ok += 1
+        if not n_ok:
+            return ob.done([ex], 'inconclusive', 'no Ok path', paths=len(res))
+        ob.done([ex], 'held', '', {'paths': len(res), 'ok_paths': n_ok}, paths=len(res))
+    return guarded(report, 'listener_cert_by_sni', 'EndpointConfigBuilder::server_config: TLS 1.3 only, client verifier installed, certificate resolved by SNI with exactly one (name -> certificate for that name) '
+                   'registration per accepted name; never a single unconditional certificate', ['EndpointConfigBuilder::server_config'], {'loop_unroll': 4, 'names': '<= 2'}, body)
+
+
+def ob_build_names(report, prop):
+    def body(ob):
+        def m_gen(ex, p, call, k):
+            nm = ex.deref(p, call.args[1])
+            p.events.append(Event('gen-cert', 'generate_cert', (nm,)))
+            k(p, Agg('()', None, (Sym(f'cert_for({vname(nm)})', 'CertificateDer'), Sym('key_der', 'PrivateKeyDer')), 'tuple'))
+
+        def m_client_cfg(ex, p, call, k):
+            p.events.append(Event('client-config', 'client_config', tuple(call.args)))
+            k(p, Sym('client_cfg_result', 'Result<quinn::ClientConfig>'))
+
+        def m_server_cfg(ex, p, call, k):
+            p.events.append(Event('server-config', 'server_config', tuple(call.args)))
+            k(p, Sym('server_cfg_result', 'Result<quinn::ServerConfig>'))
+
+        def m_clone(ex, p, call, k):
+            k(p, ex.deref(p, call.args[0]))
+        ex = e2.executor('anemo', [(r'EndpointConfigBuilder::generate_cert$', m_gen), (r'EndpointConfigBuilder::client_config$', m_client_cfg),
+                                   (r'EndpointConfigBuilder::server_config$', m_server_cfg),
+                                   (r'Arc::new$', lambda ex_, p_, call, k: k(p_, call.args[0]))], max_depth=1, opaque=[r'construct_reset_key$'])
+        fn = find_method(ex.prog, 'EndpointConfigBuilder', 'build')
+        bf = struct_fields('crates/anemo/src/config.rs', 'EndpointConfigBuilder')
+        b = struct_sym('b', 'EndpointConfigBuilder', bf, {'server_name': MD.some(Sym('primary', 'String')), 'alternate_server_name': Sym('alt', 'Option<String>'),
+                                                          'private_key': MD.some(Sym('sk', '[u8; 32]'))})
+        res = ex.run(fn, [b])
+        ad = z3.BitVec('alt.discr', 64)
+        seen = set()
+
+        def names_of(v, r):
+            out = []
+
+            def grab(x):
+                if isinstance(x, Sym) and x.name in ('primary', 'alt@Some.0'):
+                    out.append(x.name)
+                return False
+            derives_from(v, grab, ex=ex, p=r.path)
+            return out
+        for r in res:
+            if r.tag != 'return' or not (isinstance(r.ret, Agg) and r.ret.variant == 'Ok'):
+                continue
+            cc = [e for e in r.events if e.kind == 'client-config']
+            sc = [e for e in r.events if e.kind == 'server-config']
+            if len(cc) != 1 or len(sc) != 1:
+                return viol(prop, ob, [ex], 'build() does not create exactly one client and one server configuration', 'build-count', path_summary(r), len(res))
+            if base(vname(cc[0].args[0])) != 'cert_for(primary)':
+                return viol(prop, ob, [ex], f'the client presents {vrepr(cc[0].args[0])}, not the certificate issued for its primary network name', 'build-client-cert', path_summary(r), len(res))
+            cn = names_of(cc[0].args[2], r)
+            if sorted(set(cn)) != ['primary']:
+                return viol(prop, ob, [ex], f'the dialer\'s verifier accepts names {sorted(set(cn))}, not exactly its primary name', 'build-client-names', path_summary(r), len(res))
+            has_alt = e2.solve(r.pc + [ad != 1], want_model=False)[0] == 'unsat'
+            want = ['alt@Some.0', 'primary'] if has_alt else ['primary']
+            seen.add('alt' if has_alt else 'no-alt')
+            sn = sorted(set(names_of(sc[0].args[2], r)))
+            if sn != want:
+                return viol(prop, ob, [ex], f'the listener\'s client-certificate verifier accepts {sn}; expected {want}', 'build-server-names', path_summary(r), len(res))
+            pairs = sc[0].args[0]
+            pn = sorted(set(names_of(pairs, r)))
+            if pn != want:
+                return viol(prop, ob, [ex], f'the listener answers SNI names {pn}; expected {want}', 'build-sni-names', path_summary(r), len(res))
+            certs = []
+            derives_from(pairs, lambda v: certs.append(base(v.name)) or False if isinstance(v, Sym) and v.name.startswith('cert_for(') else False, ex=ex, p=r.path)
+            if sorted(set(certs)) != sorted(f'cert_for({n})' for n in want):
+                return viol(prop, ob, [ex], f'listener certificates {sorted(set(certs))} are not one per accepted name', 'build-sni-certs', path_summary(r), len(res))
+        if seen != {'alt', 'no-alt'}:
+            return ob.done([ex], 'inconclusive', f'vacuity: {seen}', paths=len(res))
+        ob.done([ex], 'held', '', {'paths': len(res)}, paths=len(res))
+    return guarded(report, 'network_name_plumbing', 'EndpointConfigBuilder::build: dialer verifier accepts [primary] and presents the primary certificate; listener verifier and SNI table accept [primary] or '
+                   '[primary, alternate], each name with the certificate generated for it', ['EndpointConfigBuilder::build'], {}, body)
+
+
+def ob_dial_name(report, prop):
+    def body(ob):
+        def m_server_name(ex, p, call, k):
+            k(p, Ptr(('H', 'PRIMARY_NAME', 'str')))
+        ex = e2.executor('anemo', [(r'EndpointConfig::server_name$', m_server_name)], max_depth=1)
+        fn = find_method(ex.prog, 'Endpoint', 'connect_with_client_config')
+        res = ex.run(fn, [])
+        n = 0
+        for r in res:
+            cw = [e for e in r.events if e.kind == 'call' and e.name.endswith('quinn::Endpoint::connect_with')]
+            if r.tag != 'return' or len(cw) != 1:
+                return viol(prop, ob, [ex], 'connect_with_client_config does not issue exactly one quinn connect_with', 'dialname-connect', path_summary(r), len(res))
+            if vname(ex.deref(r.path, cw[0].args[3])) != 'PRIMARY_NAME.*' and 'PRIMARY_NAME' not in vname(cw[0].args[3]):
+                return viol(prop, ob, [ex], f'the dial offers {vrepr(cw[0].args[3])[:60]} as network name, not the endpoint\'s primary server name', 'dialname-name', path_summary(r), len(res))
+            n += 1
+        ob.done([ex], 'held' if n else 'inconclusive', '', {'paths': len(res)}, paths=len(res))
+    return guarded(report, 'dialer_offers_primary_name', 'Endpoint::connect_with_client_config always dials with config.server_name() (the primary network name)', ['Endpoint::connect_with_client_config'], {}, body)
